@@ -1,3 +1,6 @@
+// every `match` on one of the crate's enums ends in a catch-all arm, so that a NEW variant added to the crate (a harmless
+// extension of its API) does not stop the harness from compiling; today those arms are unreachable
+#![allow(unreachable_patterns)]
 //! Canonical KIND of a diagnostic of the real pipeline, computed from the STRUCTURE of the error value: the recorded
 //! `dyn Error` is downcast to the crate's public error enums and the chain of boxed / `source()` errors is walked
 //! the same way. No `Display` text is looked at anywhere, so rewording a message (no property speaks about wording)
@@ -39,12 +42,13 @@ pub fn ty_name(t: ArgumentType) -> &'static str
 		ArgumentType::Not => "binary_not", ArgumentType::BitAnd => "binary_and", ArgumentType::BitOr => "binary_or", ArgumentType::BitXor => "binary_xor",
 		ArgumentType::LeftShift => "left_shift", ArgumentType::RightShift => "right_shift",
 		ArgumentType::Address => "address", ArgumentType::Sequence => "sequence", ArgumentType::Function => "function_call",
+		_ => "unknown_type",
 	}
 }
 
 fn choice_names(c: &ArgChoice) -> String {c.iter().map(ty_name).collect::<Vec<_>>().join("+")}
 
-pub fn realm_name(r: Realm) -> &'static str {match r {Realm::Global => "global", Realm::Local => "local"}}
+pub fn realm_name(r: Realm) -> &'static str {match r {Realm::Global => "global", Realm::Local => "local", _ => "unknown_realm"}}
 
 pub fn lex_kind(k: &TokenErrorKind) -> String
 {
@@ -57,6 +61,7 @@ pub fn lex_kind(k: &TokenErrorKind) -> String
 		TokenErrorKind::BadString => "bs".to_owned(),
 		TokenErrorKind::Invalid => "invalid".to_owned(),
 		TokenErrorKind::Unexpected(c) => format!("ux{}", *c as u32),
+		other => format!("unknown.{other:?}"),
 	}
 }
 
@@ -66,6 +71,7 @@ pub fn parse_kind(k: &ParseErrorKind) -> String
 	{
 		ParseErrorKind::Token(t) => format!("parse.tok.{}", lex_kind(&t.value)),
 		ParseErrorKind::Expected{expect, have} => format!("parse.exp.{}.{}", hex(expect.as_bytes()), hex(have.as_bytes())),
+		other => format!("parse.unknown.{other:?}"),
 	}
 }
 
@@ -76,10 +82,11 @@ pub fn overflow_kind(o: &OverflowError) -> &'static str
 		OverflowError::Negate => "negate", OverflowError::DivideByZero(..) => "divZero", OverflowError::ModuloByZero(..) => "modZero",
 		OverflowError::Add{..} => "add", OverflowError::Subtract{..} => "sub", OverflowError::Multiply{..} => "mul", OverflowError::Divide{..} => "div",
 		OverflowError::Modulo{..} => "mod", OverflowError::LeftShift{..} => "shl", OverflowError::RightShift{..} => "shr",
+		_ => "unknown",
 	}
 }
 
-pub fn put_kind(e: &PutError) -> String {match e {PutError::Overflow{need, have} => format!("write.{need}.{have}")}}
+pub fn put_kind(e: &PutError) -> String {match e {PutError::Overflow{need, have} => format!("write.{need}.{have}"), other => format!("write.unknown.{other:?}")}}
 
 pub fn seg_kind(e: &SegmentError) -> String
 {
@@ -88,6 +95,7 @@ pub fn seg_kind(e: &SegmentError) -> String
 		SegmentError::Write(p) => put_kind(p),
 		SegmentError::Occupied(a) => format!("occupied.{a:08x}"),
 		SegmentError::Overflow{need, have} => format!("overflow.{need}.{have}"),
+		other => format!("unknown.{other:?}"),
 	}
 }
 
@@ -115,6 +123,7 @@ pub fn inner_kind(e: &Dyn) -> String
 			ConstantError::Duplicate{realm, ..} => format!("duplicate.{}", realm_name(*realm)),
 			ConstantError::Range{min, max, have} => format!("const.range.{min}.{max}.{have}"),
 			ConstantError::Alignment{align, have} => format!("const.alignment.{align}.{have}"),
+			other => format!("unknown.{other:?}"),
 		};
 	}
 	if let Some(v) = e.downcast_ref::<EvalError>()
@@ -124,6 +133,7 @@ pub fn inner_kind(e: &Dyn) -> String
 			EvalError::NoSuchVariable{realm, ..} => format!("nosuch.{}", realm_name(*realm)),
 			EvalError::BadType{..} => "eval.badtype".to_owned(),
 			EvalError::Overflow(o) => format!("eval.overflow.{}", overflow_kind(o)),
+			other => format!("unknown.{other:?}"),
 		};
 	}
 	if let Some(v) = e.downcast_ref::<SimplifyError>()
@@ -132,11 +142,12 @@ pub fn inner_kind(e: &Dyn) -> String
 		{
 			SimplifyError::BadType{..} => "eval.badtype".to_owned(),
 			SimplifyError::Overflow(o) => format!("eval.overflow.{}", overflow_kind(o)),
+			other => format!("unknown.{other:?}"),
 		};
 	}
 	if let Some(v) = e.downcast_ref::<AddrError>()
 	{
-		return match v {AddrError::Range(..) => "addr.range".to_owned(), AddrError::Segment(s) => format!("addr.segment.{}", seg_kind(s))};
+		return match v {AddrError::Range(..) => "addr.range".to_owned(), AddrError::Segment(s) => format!("addr.segment.{}", seg_kind(s)), other => format!("addr.unknown.{other:?}")};
 	}
 	if let Some(v) = e.downcast_ref::<AlignError>()
 	{
@@ -146,9 +157,10 @@ pub fn inner_kind(e: &Dyn) -> String
 			AlignError::Range(v) => format!("align.range.{v}"),
 			AlignError::Overflow{need, have} => format!("align.overflow.{need}.{have}"),
 			AlignError::Write(s) => format!("align.write.{}", seg_kind(s)),
+			other => format!("unknown.{other:?}"),
 		};
 	}
-	if let Some(v) = e.downcast_ref::<ConstError>() {return match v {ConstError::Duplicate(..) => "constdir.duplicate".to_owned()};}
+	if let Some(v) = e.downcast_ref::<ConstError>() {return match v {ConstError::Duplicate(..) => "constdir.duplicate".to_owned(), other => format!("constdir.unknown.{other:?}")};}
 	if let Some(v) = e.downcast_ref::<DataError>()
 	{
 		return match v
@@ -159,6 +171,7 @@ pub fn inner_kind(e: &Dyn) -> String
 			DataError::HexEof => "data.hexeof".to_owned(),
 			DataError::File(..) => "data.file".to_owned(),
 			DataError::Write(s) => format!("data.write.{}", seg_kind(s)),
+			other => format!("unknown.{other:?}"),
 		};
 	}
 	if let Some(v) = e.downcast_ref::<GlobalError>()
@@ -168,6 +181,7 @@ pub fn inner_kind(e: &Dyn) -> String
 			GlobalError::NotFound{realm, ..} => format!("nosuch.{}", realm_name(*realm)),
 			GlobalError::Deferred{realm, ..} => format!("global.deferred.{}", realm_name(*realm)),
 			GlobalError::Duplicate{realm, ..} => format!("duplicate.{}", realm_name(*realm)),
+			other => format!("unknown.{other:?}"),
 		};
 	}
 	if let Some(v) = e.downcast_ref::<IncludeError>()
@@ -177,6 +191,7 @@ pub fn inner_kind(e: &Dyn) -> String
 			IncludeError::NoSuchFile{..} => "include.nosuchfile".to_owned(),
 			IncludeError::FileRead{..} => "include.fileread".to_owned(),
 			IncludeError::AssemblyFailed{..} => "include.failed".to_owned(),
+			other => format!("unknown.{other:?}"),
 		};
 	}
 	if let Some(v) = e.downcast_ref::<AsmError>()
@@ -188,6 +203,7 @@ pub fn inner_kind(e: &Dyn) -> String
 			AsmError::Encode(EncodeError::Unrepresentable) => "asm.encode.unrep".to_owned(),
 			AsmError::Encode(EncodeError::Overflow{..}) => "asm.encode.overflow".to_owned(),
 			AsmError::Write(s) => format!("asm.write.{}", seg_kind(s)),
+			other => format!("unknown.{other:?}"),
 		};
 	}
 	if let Some(s) = e.downcast_ref::<SegmentError>() {return format!("segment.{}", seg_kind(s));}
@@ -201,7 +217,7 @@ pub fn diag_kind(e: &Dyn) -> String
 	let e = peel(e);
 	if let Some(a) = e.downcast_ref::<AsmErrorKind>()
 	{
-		return match a {AsmErrorKind::Parse(p) => parse_kind(p), AsmErrorKind::Inactive => "inactive".to_owned()};
+		return match a {AsmErrorKind::Parse(p) => parse_kind(p), AsmErrorKind::Inactive => "inactive".to_owned(), other => format!("unknown.{other:?}")};
 	}
 	if let Some(p) = e.downcast_ref::<ParseErrorKind>() {return parse_kind(p);}
 	if let Some(d) = e.downcast_ref::<DirectiveErrorKind>()
@@ -213,6 +229,7 @@ pub fn diag_kind(e: &Dyn) -> String
 			DirectiveErrorKind::NotEnoughArguments{dir, need, have} => format!("dir.notenough.{dir}.{need}.{have}"),
 			DirectiveErrorKind::ArgumentType{dir, idx, expect, have} => format!("dir.argtype.{dir}.{idx}.{}.{}", choice_names(expect), ty_name(*have)),
 			DirectiveErrorKind::Apply{dir, source} => format!("dir.apply.{dir}.{}", inner_kind(source.as_ref())),
+			other => format!("unknown.{other:?}"),
 		};
 	}
 	if let Some(i) = e.downcast_ref::<InstrErrorKind>()
@@ -224,6 +241,7 @@ pub fn diag_kind(e: &Dyn) -> String
 			InstrErrorKind::NotEnoughArguments{need, have, ..} => format!("instr.notenough.{need}.{have}"),
 			InstrErrorKind::ArgumentType{idx, expect, have, ..} => format!("instr.argtype.{idx}.{}.{}", choice_names(expect), ty_name(*have)),
 			InstrErrorKind::Assemble(source) => format!("instr.asm.{}", inner_kind(source.as_ref())),
+			other => format!("unknown.{other:?}"),
 		};
 	}
 	format!("label.{}", inner_kind(e))
@@ -260,7 +278,7 @@ fn ty_words(t: ArgumentType) -> String {ty_name(t).replace('_', " ")}
 
 pub fn encode_text(e: &EncodeError) -> String
 {
-	match e {EncodeError::Unrepresentable => "unrepresentable".to_owned(), EncodeError::Overflow{need, have} => format!("overflow {need} {have}")}
+	match e {EncodeError::Unrepresentable => "unrepresentable".to_owned(), EncodeError::Overflow{need, have} => format!("overflow {need} {have}"), other => format!("unknown {other:?}")}
 }
 
 fn front_inner(e: &Dyn) -> String
@@ -275,6 +293,7 @@ fn front_inner(e: &Dyn) -> String
 			AsmError::Encode(x) => format!("could not encode instruction <- {}", encode_text(x)),
 			AsmError::Write(SegmentError::Overflow{need, have}) => format!("could not write instruction to segment <- segment overflow (need {need}, capacity {have})"),
 			AsmError::Write(s) => format!("could not write instruction to segment <- {}", seg_kind(s)),
+			other => format!("unknown.{other:?}"),
 		};
 	}
 	if let Some(c) = e.downcast_ref::<ConstantError>()
@@ -294,6 +313,7 @@ fn front_inner(e: &Dyn) -> String
 			EvalError::NoSuchVariable{name, realm} => format!("no such {} constant {:?}", realm_name(*realm), name.as_ref()),
 			EvalError::BadType{kind, op} => format!("{} not supported for {}", ty_words(*op), ty_words(*kind)),
 			EvalError::Overflow(o) => format!("arithmetic overflow <- {o:?}"),
+			other => format!("unknown.{other:?}"),
 		};
 	}
 	inner_kind(e)
@@ -320,6 +340,7 @@ pub fn front_text(e: &Dyn) -> String
 				}
 			},
 			InstrErrorKind::Assemble(source) => format!("instruction assembly failed <- {}", front_inner(source.as_ref())),
+			other => format!("unknown.{other:?}"),
 		};
 	}
 	diag_kind(e)
